@@ -91,11 +91,11 @@ Print Assumptions carry_helpers_defined.
     programs only; the richer programs are covered by the four-build differential run. *)
 From ChibiV Require Import C09.Ast C09.Simplify C09.SimplifyProofs.
 
-Theorem simplify_sound_partial : forall e r o v r1 o1,
+Theorem simplify_sound_let_fragment : forall e r o v r1 o1,
   wf e = true -> eval e (r, o) = (Some v, (r1, o1)) ->
   exists r1', eval (simplify e [] true) (r, o) = (Some v, (r1', o1)) /\ forall x l, lookup x l r1 = lookup x l r1'.
 Proof. exact SimplifyProofs.simplify_sound_body. Qed.
-Print Assumptions simplify_sound_partial.
+Print Assumptions simplify_sound_let_fragment.
 
 (** with any substitution list in force: the deleted parameters hold their constants ([agree]) *)
 Theorem subst_sound : forall e S r r' o v r1 o1,
@@ -140,3 +140,56 @@ Theorem luint_div_uint_Z : forall a w, lu_ok a -> u64 w -> w <> 0 ->
   lu_ok (luint_div_uint a w) /\ luval (luint_div_uint a w) = luval a / w.
 Proof. exact LuintProofs2.luint_div_uint_Z. Qed.
 Print Assumptions luint_div_uint_Z.
+
+(** the conversion and range-test helpers (bignum.h:65-126) *)
+Theorem conversions_Z :
+  (forall a, ls_ok a -> lsint_lt_0 a = if luval a <? 0 then 1 else 0) /\
+  (forall x, ls_ok x -> sexp_lsint_fits_sint x = if (- 9223372036854775808 <=? luval x) && (luval x <? 9223372036854775808) then 1 else 0) /\
+  (forall x, lu_ok x -> sexp_luint_fits_uint x = if luval x <? M64 then 1 else 0) /\
+  (forall v, s64 v -> ls_ok (lsint_from_sint v) /\ luval (lsint_from_sint v) = v) /\
+  (forall v, u64 v -> lu_ok (luint_from_uint v) /\ luval (luint_from_uint v) = v) /\
+  (forall v, ls_ok v -> s64 (lsint_to_sint v) /\ lsint_to_sint v mod M64 = luval v mod M64 /\ lsint_to_sint_hi v = luval v / M64) /\
+  (forall v, lu_ok v -> luint_to_uint v = luval v mod M64 /\ luint_to_uint_hi v = luval v / M64) /\
+  (forall v, ls_ok v -> lu_ok (luint_from_lsint v) /\ luval (luint_from_lsint v) = luval v mod M128) /\
+  (forall v, lu_ok v -> ls_ok (lsint_from_luint v) /\ luval (lsint_from_luint v) = smod128 (luval v)).
+Proof. exact LuintProofs2.conversions_Z. Qed.
+Print Assumptions conversions_Z.
+
+(** the entry point sexp_simplify (simplify.c:156-158: empty substitution list, no enclosing lambda): result, output and
+    the whole final state are preserved exactly (no precondition: outside a lambda no parameter is ever deleted) *)
+Theorem sexp_simplify_sound : forall e s v s1, eval e s = (Some v, s1) -> eval (sexp_simplify e) s = (Some v, s1).
+Proof. exact SimplifyProofs.sexp_simplify_sound. Qed.
+Print Assumptions sexp_simplify_sound.
+
+(** hence the three places that use the emulation (fxmul / fxdiv loop bodies, fixnum*fixnum) take exactly the step on Z
+    that the native 128-bit type takes (these three snippets are mirrored by hand in C09/LuintProofs2.v, not regenerated) *)
+Theorem custom_long_longs_refines_native :
+  (forall x b carry, u64 x -> u64 b -> u64 carry ->
+     fxmul_step x b carry = ((x * b + carry) mod M64, (x * b + carry) / M64)) /\
+  (forall r d b, u64 r -> u64 d -> u64 b -> r < b ->
+     fxdiv_step r d b = ((r * M64 + d) / b, (r * M64 + d) mod b)) /\
+  (forall a b, - 4611686018427387904 <= a <= 4611686018427387903 -> - 4611686018427387904 <= b <= 4611686018427387903 ->
+     fixmul a b = if (- 4611686018427387904 <=? a * b) && (a * b <=? 4611686018427387903) then Some (a * b) else None).
+Proof. exact LuintProofs2.custom_long_longs_refines_native. Qed.
+Print Assumptions custom_long_longs_refines_native.
+
+(** (B) with first-class closures, recursion and assignment: SPEC = C09/Sem2.v [eval2] (fuel-bounded definitional
+    interpreter with a store; assigned variables boxed, the others bound directly; operands right to left).
+    PARTIAL with respect to the full statement (Sem for the whole core language): rest parameters (their values are
+    lists), data structures other than constants, call/cc and dynamic-wind are outside the interpreter — a lambda with a
+    rest parameter has no defined result in it.  The values are related by [vrel] (equal constants; closures whose bodies
+    are the simplified bodies under the substitution in force and whose environments are related), stores pointwise. *)
+From ChibiV Require Import C09.Sem2 C09.Sem2Proofs.
+
+Theorem simplify_sound_partial : forall fuel e S r r' s s' o v s1 o1,
+  wf e = true -> C1 S e -> C2 S e -> ~ In 0 (sdom S) -> envrel S r r' -> storerel s s' ->
+  eval2 fuel e r s o = Some (v, s1, o1) ->
+  exists v' s1', eval2 fuel (simplify e S true) r' s' o = Some (v', s1', o1) /\ vrel v v' /\ storerel s1 s1'.
+Proof. exact Sem2Proofs.simplify_sound_closures. Qed.
+Print Assumptions simplify_sound_partial.
+
+(** whole programs: the observable result (a constant, or "some procedure") and the output are unchanged *)
+Theorem simplify_sound_program : forall fuel e res o,
+  wf e = true -> run2 fuel e = Some (res, o) -> run2 fuel (simplify e [] true) = Some (res, o).
+Proof. exact Sem2Proofs.simplify_sound_program. Qed.
+Print Assumptions simplify_sound_program.
